@@ -98,6 +98,13 @@ def sources(tier, seed, ctx):
     for mode in MODES:
         for n, m, big in [(18, 1, False), (20, 1, True), (1, 21, False)] + ([] if tier == 'quick' else [(33, 1, True), (1, 40, False)]):
             srcs.append({'fn': 'mul', 'n': n, 'm': m, 'mode': mode, 'big': big, 'gen': True, 'host': None})
+    # Karatsuba splits: the narrow operand next to half of the wide one (n odd / even, m = floor(n/2), ceil(n/2), +1), both ways
+    # round - the shapes in which a shortcut for a "narrow second operand" would have to tell the halves apart
+    for n in ([21, 24, 25] if tier == 'quick' else [19, 20, 21, 22, 23, 24, 25, 27, 33]):
+        for m in sorted({n // 2, (n + 1) // 2, (n + 1) // 2 + 1}):
+            for mode in ('KARATSUBA', 'EFFICIENT_KARATSUBA'):
+                for a, b in ((n, m), (m, n)):
+                    srcs.append({'fn': 'mul', 'n': a, 'm': b, 'mode': mode, 'big': bool((a + m) % 2), 'gen': mode == 'KARATSUBA', 'host': None})
     # nested Karatsuba recursion (max width >= 33) in both endiannesses
     for n, m, big in ([(33, 33, True), (34, 33, False), (36, 35, True), (33, 40, True)] if tier == 'quick' else [(33, 33, True), (34, 33, False), (35, 40, True), (36, 36, True), (41, 33, False)]):
         for mode in ('KARATSUBA', 'DEFAULT'):
